@@ -19,6 +19,16 @@ func (fr *frame) instr(in ssa.Instruction, st *State) {
 		return
 	case *ssa.Alloc:
 		et := x.Type().Underlying().(*types.Pointer).Elem()
+		if isScalarAlloc(x) && !allocEscapes(x, 0) {
+			// non-escaping local variable cell: a state variable of its own
+			name := LocalCellName(x)
+			so := SortOf(et)
+			s.getMap(st, name, so)
+			st.Maps[name] = zeroOf(so)
+			fr.locs[x] = &loc{kind: locGlobal, mapName: name, sort: so, gt: et}
+			fr.vals[x] = TV{T: "0", S: "Int", GT: x.Type()}
+			return
+		}
 		r := s.allocRef(st, fr.name(x))
 		fr.zeroInit(st, et, r, 0)
 		fr.vals[x] = TV{T: r, S: "Int", GT: x.Type()}
@@ -164,7 +174,7 @@ func (fr *frame) instr(in ssa.Instruction, st *State) {
 		ms := "(Array Int " + mapSortOfElem(es) + ")"
 		name := ElemMapName(st0.Elem())
 		m := s.getMap(st, name, ms)
-		s.setMap(st, name, ms, fmt.Sprintf("(store %s %s ((as const %s) %s))", m, arr, mapSortOfElem(es), zeroOf(es)))
+		s.setMap(st, name, ms, fmt.Sprintf("(store %s %s %s)", m, arr, s.constArray("Int", es)))
 		s.assume(st, fmt.Sprintf("(>= %s 0)", ln.T))
 		fr.vals[x] = TV{T: fmt.Sprintf("(mk-slice %s %s)", arr, ln.T), S: "Slice", GT: x.Type()}
 	case *ssa.MakeMap:
